@@ -39,6 +39,7 @@ def main(argv=None) -> int:
         entry = registry.REGISTRY[args.prop]
         parts = []
         for fam in entry["families"]:
+            os.environ["VERIF_FOCUS"] = args.prop      # families may skip work that cannot bear on this property
             parts.extend(fam(args.tier, seed))
         known_lines = registry.known_lines(args.prop, parts)
         return finish(args.prop, args.tier, seed, parts, t0, ASSUME_COMMON + entry.get("assumptions", []), known_lines)
